@@ -519,6 +519,21 @@ pub fn c13_case(rng: &mut Rng, len_lo: usize, len_hi: usize, with_q: bool) -> Ca
                     let mut img = fv.clone();
                     rng.shuffle(&mut img);
                     c.rename(&fv.iter().copied().zip(img).collect())
+                } else if with_q && !terms.is_empty() && rng.chance(1, 3) {
+                    // the same term with one free slot replaced by another name (unions of such pairs make slots redundant)
+                    let c = terms[rng.below(terms.len())].canon();
+                    let fv: Vec<Name> = c.fv().into_iter().collect();
+                    if fv.is_empty() {
+                        c
+                    } else {
+                        let a = fv[rng.below(fv.len())];
+                        let b = (0..8).find(|n| !fv.contains(n)).unwrap_or(7);
+                        c.rename(&[(a, b)].into_iter().collect())
+                    }
+                } else if with_q && rng.chance(1, 2) {
+                    let mut names: Vec<Name> = (0..5).collect();
+                    rng.shuffle(&mut names);
+                    Tm::leaf("q", names[..4].to_vec())
                 } else {
                     gen_closed_term(rng, &cfg)
                 };
